@@ -9,7 +9,7 @@ from gen import B, M
 PID = 'C19'
 LEVEL = 'exploration'
 VARIANTS = {'quick': ['asan', 'plain'], 'thorough': ['asan', 'plain']}
-RULE = ('generators: Mersenne Twister, default, lc_2exp (several a,c,m2exp), lc_2exp_size for every supported size (sampled in quick; unsupported '
+RULE = ('[also: uniformity batteries for mpn_urandomm over the same moduli as mpz_urandomm incl. power-of-two top limbs over non-zero low limbs; slow-start LC states (a=5,c=1 ..., tiny seeds) whose draws have leading zero limbs, judged by range/format only] generators: Mersenne Twister, default, lc_2exp (several a,c,m2exp), lc_2exp_size for every supported size (sampled in quick; unsupported '
         'sizes must return 0); seeds 0, 1, 2^32, 2^64-1, multi-limb, negative (-1..-4, -2^64, multi-limb); range predicates on every draw of mpz_urandomb/rrandomb/urandomm, mpn_urandomb/'
         'urandomm/randomb/rrandom, gmp_urandomb_ui/urandomm_ui, mpf_urandomb (value in [0,1), format by the driver monitor) over bit counts 0,1,31..33,'
         '63..65,127..129,19936..19938,10^5 and moduli 1,2,3,2^k,2^k+-1, all-ones, multi-limb with top limb 1; sequence equality for two states with the '
